@@ -70,6 +70,8 @@ func Lib() *ty.Env {
 	e.Decls[xc].Under.Blanks = map[int]string{0: "int32", 1: "bool"}
 	// a non-comparable struct holding a NAMED float: -0 and +0 are Equal there and must hash alike
 	add("SNF", "", ty.St(f("T", ty.N(2)), f("S", ty.Sl(b("string")))), false) // 36
+	nsc := add("NSC", "", b("string"), false) // 37: a named string with its own (coarse) Compare method, used as a map key
+	e.Decls[nsc].Methods = "Cs"
 	return e
 }
 
@@ -106,7 +108,7 @@ func leaves(env *ty.Env, thorough bool) []*ty.Ty {
 }
 
 func keyTypes() []*ty.Ty {
-	return []*ty.Ty{ty.B("bool"), ty.B("int8"), ty.B("uint64"), ty.B("float64"), ty.B("complex128"), ty.B("string"), ty.N(0), ty.N(1), ty.N(5), ty.Ar(2, ty.B("int")), ty.N(15), ty.N(21), ty.N(35),
+	return []*ty.Ty{ty.B("bool"), ty.B("int8"), ty.B("uint64"), ty.B("float64"), ty.B("complex128"), ty.B("string"), ty.N(0), ty.N(1), ty.N(5), ty.Ar(2, ty.B("int")), ty.N(15), ty.N(21), ty.N(35), ty.N(37),
 		ty.St(ty.F("A", ty.B("int")), ty.F("B", ty.B("string")))}
 }
 
@@ -233,6 +235,10 @@ func MethodSrc(d *ty.Decl) string {
 			src += fmt.Sprintf("func (this *%[1]s) Compare(that *%[1]s) int {\n\tif this == nil {\n\t\tif that == nil {\n\t\t\treturn 0\n\t\t}\n\t\treturn -1\n\t}\n\tif that == nil {\n\t\treturn 1\n\t}\n\tif this.A < that.A {\n\t\treturn -1\n\t}\n\tif this.A > that.A {\n\t\treturn 1\n\t}\n\treturn 0\n}\n\n", n)
 		case "Cv":
 			src += fmt.Sprintf("func (this %[1]s) Compare(that %[1]s) int {\n\tif this.A < that.A {\n\t\treturn -1\n\t}\n\tif this.A > that.A {\n\t\treturn 1\n\t}\n\treturn 0\n}\n\n", n)
+		case "Cs":
+			// on a named string: a Compare that is coarser than the natural order (every pair ties). Sort, keys and
+			// hash order such keys with <, never with this method; only the compare plugin would call it.
+			src += fmt.Sprintf("func (this %[1]s) Compare(that %[1]s) int { return 0 }\n\n", n)
 		case "Hp":
 			src += fmt.Sprintf("func (this *%[1]s) Hash() int32 {\n\tif this == nil {\n\t\treturn 0\n\t}\n\treturn int32(this.A)\n}\n\n", n)
 		}
